@@ -8,6 +8,9 @@
 (* Config: Mode = "depth"   histories of <= MaxOps operations over Small     *)
 (*         Mode = "breadth" a prefix from Prefixes, then ONE operation of    *)
 (*                          Big (every path of depth <= 3 x every kind)      *)
+(*         Mode = "names"   a prefix from NamePrefixes, then ONE operation    *)
+(*                          whose path uses keys that are also the names of   *)
+(*                          prototype methods (length, pluck, push, floor)    *)
 (*         Mode = "given"   the histories in given.json (seeded random ones   *)
 (*                          over Big, written by the harness); operations the *)
 (*                          statement leaves open in their state are skipped  *)
@@ -16,7 +19,7 @@ CONSTANTS Mode, MaxOps, Wide
 
 Fuel == 40
 ObsNames == {"x", "y", "$"}
-Names == {"x", "y", "$", "v", "e"}
+Names == {"x", "y", "$", "v", "e", "g"}
 Sems == {"I", "G0", "G1"}
 
 -----------------------------------------------------------------------------
@@ -31,13 +34,26 @@ RPath(p) == [r |-> "path", p |-> p]
 Op(kind, p, r, f) == [kind |-> kind, p |-> p, r |-> r, f |-> f]
 Set(p, r) == Op("set", p, r, "")
 Rd(p) == Op("read", p, NoR, "")
-Call(f, p) == Op("call", p, NoR, f)       \* fk: v.k = 7   fi: v[0] = 7   fg: v[2] = 7   fr: v = 7
-Loop(f, p) == Op("loop", p, NoR, f)       \* lr: e = 9     lk: e.k = 9    li: e[0] = 9
+RPluck(p) == [r |-> "pluck", p |-> p]     \* p.pluck("k", "n"): a new object; scalars are copied into it, containers shared
+\* a function that changes its parameter:  fk: v.k = 7   fi: v[0] = 7   fg: v[2] = 7   fr: v = 7
+\*                                         fp: v++       fa: v += 2     fq: v.k++
+Call(f, p) == Op("call", p, NoR, f)
+\* for (e in p) body / for (g, e in p) body:  lr: e = 9   lk: e.k = 9   li: e[0] = 9
+\*                                            lp: e++     lm: --e       la: e += 2    lq: e.k++
+\* e is the element of an array / the key of an object in the one-variable form and the index of an
+\* array / the member value of an object in the two-variable form
+Loop(f, p) == Op("loop", p, NoR, f)
+Loop2(f, p) == Op("loop2", p, NoR, f)
 Upd(kind, p) == Op(kind, p, NoR, "")      \* cadd: p += 2  csub: p -= 2   cstr: p += "s"  preinc postinc predec postdec
 UpdKinds == {"cadd", "csub", "cstr", "preinc", "postinc", "predec", "postdec"}
-BodyPath(f) == CASE f \in {"fk"} -> P("v", <<K("k")>>) [] f = "fi" -> P("v", <<I(0)>>) [] f = "fg" -> P("v", <<I(2)>>)
-                 [] f = "fr" -> P("v", <<>>) [] f = "lr" -> P("e", <<>>) [] f = "lk" -> P("e", <<K("k")>>)
-                 [] f = "li" -> P("e", <<I(0)>>)
+\* length-changing methods through any path:  print p.pop() / p.popfirst() / p.push(6)
+Meth(kind, p) == Op(kind, p, NoR, "")
+MethKinds == {"pop", "popfirst", "push"}
+CallFs == {"fk", "fi", "fg", "fr", "fp", "fa", "fq"}
+LoopFs == {"lr", "lk", "li", "lp", "lm", "la", "lq"}
+BodyVar(f) == IF f \in CallFs THEN "v" ELSE "e"
+BodyPath(f) == P(BodyVar(f), CASE f \in {"fk", "lk", "fq", "lq"} -> <<K("k")>> [] f \in {"fi", "li"} -> <<I(0)>> [] f = "fg" -> <<I(2)>> [] OTHER -> <<>>)
+BodyUpd(f) == CASE f \in {"fp", "lp", "fq", "lq"} -> "postinc" [] f = "lm" -> "predec" [] f \in {"fa", "la"} -> "cadd" [] OTHER -> ""
 
 X(ss) == P("x", ss)
 Y(ss) == P("y", ss)
@@ -54,15 +70,39 @@ Small ==
     Upd("cadd", X(<<K("k")>>)), Upd("postinc", X(<<I(1)>>)), Upd("preinc", Y(<<I(2)>>)), Upd("predec", D(<<K("n")>>)),
     Rd(X(<<I(5)>>)), Rd(D(<<K("k"), I(3)>>)), Rd(Y(<<K("j")>>)), Rd(X(<<I(-3)>>)),
     Call("fk", X(<<>>)), Call("fi", X(<<>>)), Call("fg", Y(<<>>)), Call("fr", X(<<>>)), Call("fk", D(<<>>)),
-    Loop("lk", D(<<K("k")>>)), Loop("lr", X(<<>>)), Loop("li", X(<<>>)) }
+    Loop("lk", D(<<K("k")>>)), Loop("lr", X(<<>>)), Loop("li", X(<<>>)),
+    \* a loop variable / a plucked member stepped in place; an array shrunk and then padded; a member named like a method
+    Loop("lp", D(<<K("k")>>)), Loop2("lm", D(<<>>)), Meth("pop", X(<<>>)), Meth("pop", D(<<K("k")>>)), Set(D(<<K("k"), I(1)>>), RNum(7)),
+    Set(X(<<K("length")>>), RNum(7)) }
 
 SelAll == {K("k"), K("j"), I(0), I(1), I(2), I(5), I(-1), I(-3)}
 SelSome == {K("k"), K("j"), I(0), I(2), I(-1)}
 SelSeqs == SeqsUpTo(SelAll, 2) \cup (IF Wide THEN [1..3 -> SelSome] ELSE {<<K("k"), I(1), s>> : s \in SelAll} \cup {<<K("j"), s, t>> : s, t \in {K("k"), I(1)}})
 BigPaths == {P(b, ss) : b \in ObsNames, ss \in SelSeqs}
 Rhss == {RNum(7), RStr("s"), RArr, RObj, RPath(Y(<<>>)), RPath(X(<<>>)), RPath(D(<<K("k")>>)), RPath(Y(<<I(5)>>))}
+\* the operations added for scalar copies (loop variables, parameters, plucked members) and for the
+\* length-changing methods: over every path of depth <= 1 and a few deeper ones (Wide: over every path)
+NewPaths == IF Wide THEN BigPaths
+            ELSE {P(b, ss) : b \in ObsNames, ss \in SeqsUpTo(SelAll, 1) \cup {<<K("k"), I(1)>>, <<K("k"), I(0)>>, <<K("k"), K("k")>>, <<K("j"), K("k")>>, <<I(1), K("k")>>}}
+BigNew == {Meth(k, p) : k \in MethKinds, p \in NewPaths}
+          \cup {Call(f, p) : f \in {"fp", "fa", "fq"}, p \in NewPaths}
+          \cup {Loop(f, p) : f \in {"lp", "lm", "la", "lq"}, p \in NewPaths} \cup {Loop2(f, p) : f \in LoopFs, p \in NewPaths}
+          \cup {Set(p, RPluck(q)) : p \in {X(<<>>), Y(<<K("j")>>), X(<<I(1)>>)}, q \in NewPaths}
 Big == {Set(p, r) : p \in BigPaths, r \in Rhss} \cup {Upd(k, p) : k \in UpdKinds, p \in BigPaths} \cup {Rd(p) : p \in BigPaths}
        \cup {Call(f, p) : f \in {"fk", "fi", "fg", "fr"}, p \in BigPaths} \cup {Loop(f, p) : f \in {"lr", "lk", "li"}, p \in BigPaths}
+       \cup BigNew
+
+\* keys that are also names of prototype methods (of objects: length, pluck; of arrays, numbers: push, floor)
+SelNames == {K("length"), K("pluck"), K("push"), K("floor"), K("k"), I(0)}
+NamePaths == {P(b, ss) : b \in ObsNames, ss \in SeqsUpTo(SelNames, 2)}
+BigNames == {Set(p, r) : p \in NamePaths, r \in {RNum(7), RObj, RPath(Y(<<>>))}} \cup {Upd(k, p) : k \in UpdKinds, p \in NamePaths}
+            \cup {Rd(p) : p \in NamePaths} \cup {Call(f, p) : f \in {"fk", "fr"}, p \in NamePaths}
+            \cup {Loop2("lq", p) : p \in NamePaths}
+NamePrefixes ==
+  { <<>>, <<Set(X(<<>>), RObj)>>, <<Set(X(<<>>), RNum(7))>>, <<Set(X(<<>>), RStr("s"))>>, <<Set(X(<<>>), RArr)>>,
+    <<Set(X(<<>>), RObj), Set(Y(<<>>), RPath(X(<<>>)))>>,
+    <<Set(X(<<K("length")>>), RNum(7))>>, <<Set(X(<<K("pluck"), K("length")>>), RObj), Set(Y(<<>>), RPath(X(<<K("pluck")>>)))>>,
+    <<Set(X(<<>>), RPath(D(<<>>)))>> }
 
 Prefixes ==
   { <<>>,
@@ -74,7 +114,15 @@ Prefixes ==
     <<Set(Y(<<>>), RArr), Set(X(<<K("k")>>), RPath(Y(<<>>)))>>,
     <<Set(Y(<<>>), RObj), Set(X(<<I(1)>>), RPath(Y(<<>>)))>>,
     <<Set(Y(<<>>), RArr), Set(X(<<I(0)>>), RPath(Y(<<>>))), Set(X(<<I(1)>>), RPath(Y(<<>>)))>>,
-    <<Set(X(<<K("k"), K("k")>>), RArr), Set(Y(<<>>), RPath(X(<<K("k")>>)))>> }
+    <<Set(X(<<K("k"), K("k")>>), RArr), Set(Y(<<>>), RPath(X(<<K("k")>>)))>>,
+    \* arrays that were longer before (pop leaves what it removed in the spare capacity; popfirst re-slices)
+    <<Meth("pop", D(<<K("k")>>)), Meth("pop", D(<<K("k")>>))>>,
+    <<Set(X(<<>>), RArr), Meth("pop", X(<<>>)), Meth("pop", X(<<>>))>>,
+    <<Set(X(<<>>), RArr), Set(Y(<<>>), RPath(X(<<>>))), Meth("pop", X(<<>>))>>,
+    <<Set(X(<<>>), RArr), Meth("push", X(<<>>)), Meth("pop", X(<<>>)), Meth("pop", X(<<>>))>>,
+    <<Set(X(<<>>), RArr), Meth("popfirst", X(<<>>))>>,
+    \* an object whose members were plucked from another
+    <<Set(X(<<>>), RPluck(D(<<>>)))>> }
 
 -----------------------------------------------------------------------------
 (* initial states: x, y unset; $ = {"k": [1, {"k": 2}], "n": 5}              *)
@@ -99,11 +147,24 @@ AsP(sem, st, p, v) ==
   LET r == IF sem = "I" THEN AssignPath(st, p, v) ELSE GAssignPath(st, p, v) IN R3(r.st, Missing, r.status)
 TreeOf(sem, st, v) == IF sem = "I" THEN Tree(st, v, Fuel) ELSE GTree(st, v, Fuel)
 ElemsOf(sem, st, v) == IF sem = "I" THEN st.heap[v.id].items ELSE LET cs == GView(st, v) IN [i \in 1..Len(cs) |-> st.heap[cs[i]].v]
+\* the keys of an object in the order a for-in loop visits them (bytewise)
+KeySeq == <<"floor", "j", "k", "length", "n", "pluck", "push">>
+KeysKnown(m) == \A k \in DOMAIN m : \E i \in 1..Len(KeySeq) : KeySeq[i] = k
+SortedKeys(m) == SelectSeq(KeySeq, LAMBDA k : k \in DOMAIN m)
+\* what the loop variable e holds in each round (two: the two-variable form)
+LoopElems(sem, st, v, two) ==
+  IF v.t = "arr" THEN LET es == ElemsOf(sem, st, v) IN IF two THEN [i \in 1..Len(es) |-> Num(i - 1)] ELSE es
+  ELSE LET m == st.heap[v.id].m  ks == SortedKeys(m) IN [i \in 1..Len(ks) |-> IF two THEN m[ks[i]] ELSE Str(ks[i])]
 SetEnv(st, n, v) == [st EXCEPT !.env[n] = v]
 MkLit(sem, st, r) ==
   CASE r.r = "num" -> [st |-> st, val |-> Num(r.n)]
     [] r.r = "str" -> [st |-> st, val |-> Str(r.s)]
     [] r.r = "objlit" -> LET s1 == Alloc(st, ObjC("k" :> Num(3))) IN [st |-> s1, val |-> Obj(Len(s1.heap))]
+    [] r.r = "pluck" ->      \* only called when r.p holds an object
+         LET v == IF sem = "I" THEN ReadPath(st, r.p) ELSE GReadPath(st, r.p, FALSE).res
+             m == st.heap[v.id].m
+             s1 == Alloc(st, ObjC([k \in {"k", "n"} |-> IF k \in DOMAIN m THEN GCopy(m[k]) ELSE Null]))
+         IN [st |-> s1, val |-> Obj(Len(s1.heap))]
     [] r.r = "arrlit" ->
          IF sem = "I" THEN LET s1 == Alloc(st, ArrC(<<Num(8), Num(9)>>)) IN [st |-> s1, val |-> Arr(Len(s1.heap))]
          ELSE LET s1 == GAlloc(GAlloc(st, [k |-> "cell", v |-> Num(8)]), [k |-> "cell", v |-> Num(9)])
@@ -120,11 +181,52 @@ Despec(old, new) ==
 \* becomes of the variable is not (the pinned code turns it into a container)
 ThroughUnset(st, p) == p.sels # <<>> /\ st.env[p.base].t = "unset"
 
+\* A member that an object does not have but whose key names a method of objects reads as that method
+\* (x.length is the method length when x has no member "length"): the statement does not say what a
+\* pure read of it yields; a store to it creates the member like any other
+ObjMethods == {"length", "pluck"}
+ValueAt(sem, st, p, n) == IF sem = "I" THEN ReadFrom(st, st.env[p.base], SubSeq(p.sels, 1, n))
+                          ELSE LET r == GReadAt(st, st.env[p.base], SubSeq(p.sels, 1, n), FALSE) IN IF r.status = "ok" THEN r.res ELSE [t |-> r.status]
+\* is the selector after the first n one that finds a method instead of a member?
+MethodAt(sem, st, p, n) ==
+  /\ n < Len(p.sels) /\ p.sels[n + 1].s = "key" /\ p.sels[n + 1].k \in ObjMethods
+  /\ LET v == ValueAt(sem, st, p, n) IN
+     \/ v.t = "obj" /\ p.sels[n + 1].k \notin DOMAIN st.heap[v.id].m
+     \/ v.t = "unset" /\ n = 0
+PureMethodRead(sem, st, p) == p.sels # <<>> /\ MethodAt(sem, st, p, Len(p.sels) - 1)
+\* deviation `method-name-intermediate`: a store THROUGH such a member (x.length.k = 1, x without a member
+\* "length") must create it as an object like any missing intermediate; the pinned code refuses it
+MethodIntermediate(sem, st, p) == \E n \in 0..(Len(p.sels) - 2) : MethodAt(sem, st, p, n)
+
+\* p op= 2, ++p, ... : read, compute, store at the same location
+UpdStep(sem, st, op) ==
+         LET rd == RdQ(sem, st, op.p) IN
+         IF rd.status # "ok" THEN rd
+         ELSE IF IsCont(rd.res) THEN R3(st, Missing, "open")      \* arithmetic on containers is C05's
+         ELSE LET cur == rd.res
+                  new == CASE op.kind = "cadd" -> Plus(cur, Num(2))
+                           [] op.kind = "csub" -> Minus(cur, Num(2))
+                           [] op.kind = "cstr" -> Plus(cur, Str("s"))
+                           [] op.kind \in {"preinc", "postinc"} -> Num(NumOf(cur) + 1)
+                           [] OTHER -> Num(NumOf(cur) - 1)
+                  as == AsP(sem, rd.st, op.p, new)
+                  res == CASE op.kind \in {"postinc", "postdec"} -> Num(NumOf(cur))
+                           [] op.kind \in {"preinc", "predec"} -> new
+                           [] OTHER -> Missing
+              IN IF as.status = "error" /\ op.kind \in {"preinc", "postinc", "predec", "postdec"}
+                 THEN R3(st, Missing, "open")                      \* C11 owns the fault of ++ on a member of a scalar
+                 ELSE R3(as.st, res, as.status)
+
+\* the body of a function / a loop: a store to, or an update of, the parameter / loop variable or a part of it
+Body(sem, st, f, n) ==
+  IF BodyUpd(f) = "" THEN AsP(sem, st, BodyPath(f), Num(n))
+  ELSE LET r == UpdStep(sem, st, Upd(BodyUpd(f), BodyPath(f))) IN R3(r.st, Missing, r.status)
+
 RECURSIVE LoopFrom(_, _, _, _, _)
 LoopFrom(sem, st, elems, i, f) ==
   IF i > Len(elems) THEN R3(st, Missing, "ok")
   ELSE IF elems[i].t = "specnull" THEN R3(st, Missing, "wild")
-  ELSE LET r == AsP(sem, SetEnv(st, "e", elems[i]), BodyPath(f), Num(9))
+  ELSE LET r == Body(sem, SetEnv(st, "e", GCopy(elems[i])), f, 9)
        IN IF r.status # "ok" THEN r ELSE LoopFrom(sem, r.st, elems, i + 1, f)
 
 (* one operation: [st, res (Missing = the statement prints no result), status] *)
@@ -145,40 +247,44 @@ Step(sem, st, op) ==
             ELSE IF sem # "I" /\ GMakesCycle(rd.st, target, rd.res, Fuel) THEN R3(st, Missing, "wild")
             ELSE IF rd.res.t = "unset" THEN R3(st, Missing, "open")
             ELSE AsP(sem, rd.st, target, GCopy(rd.res))
+         ELSE IF op.r.r = "pluck" THEN
+            LET rd == RdP(sem, st, op.r.p) IN
+            IF rd.status # "ok" THEN rd
+            ELSE IF rd.res.t # "obj" THEN R3(st, Missing, "open")       \* pluck of anything else: C16's
+            ELSE IF PureMethodRead(sem, st, op.r.p) THEN R3(st, Missing, "open")
+            ELSE IF sem # "I" /\ \E k \in DOMAIN rd.st.heap[rd.res.id].m : GMakesCycle(rd.st, op.p, rd.st.heap[rd.res.id].m[k], Fuel) THEN R3(st, Missing, "wild")
+            ELSE LET m == MkLit(sem, rd.st, op.r) IN AsP(sem, m.st, op.p, m.val)
          ELSE LET m == MkLit(sem, st, op.r) IN AsP(sem, m.st, op.p, m.val)
-    [] op.kind \in UpdKinds ->
-         LET rd == RdQ(sem, st, op.p) IN
-         IF rd.status # "ok" THEN rd
-         ELSE IF IsCont(rd.res) THEN R3(st, Missing, "open")      \* arithmetic on containers is C05's
-         ELSE LET cur == rd.res
-                  new == CASE op.kind = "cadd" -> Plus(cur, Num(2))
-                           [] op.kind = "csub" -> Minus(cur, Num(2))
-                           [] op.kind = "cstr" -> Plus(cur, Str("s"))
-                           [] op.kind \in {"preinc", "postinc"} -> Num(NumOf(cur) + 1)
-                           [] OTHER -> Num(NumOf(cur) - 1)
-                  as == AsP(sem, rd.st, op.p, new)
-                  res == CASE op.kind \in {"postinc", "postdec"} -> Num(NumOf(cur))
-                           [] op.kind \in {"preinc", "predec"} -> new
-                           [] OTHER -> Missing
-              IN IF as.status = "error" /\ op.kind \in {"preinc", "postinc", "predec", "postdec"}
-                 THEN R3(st, Missing, "open")                      \* C11 owns the fault of ++ on a member of a scalar
-                 ELSE R3(as.st, res, as.status)
-    [] op.kind = "read" -> RdP(sem, st, op.p)
+    [] op.kind \in UpdKinds -> UpdStep(sem, st, op)
+    [] op.kind = "read" -> IF PureMethodRead(sem, st, op.p) THEN R3(st, Missing, "open") ELSE RdP(sem, st, op.p)
     [] op.kind = "call" ->
          LET rd == RdP(sem, st, op.p) IN
          IF rd.status # "ok" THEN rd
-         ELSE LET as == AsP(sem, SetEnv(rd.st, "v", GCopy(rd.res)), BodyPath(op.f), Num(7))
+         ELSE IF PureMethodRead(sem, st, op.p) THEN R3(st, Missing, "open")
+         ELSE LET as == Body(sem, SetEnv(rd.st, "v", GCopy(rd.res)), op.f, 7)
               IN R3(SetEnv(as.st, "v", Unset), Missing, as.status)
-    [] op.kind = "loop" ->
+    [] op.kind \in {"loop", "loop2"} ->
          LET rd == RdP(sem, st, op.p) IN
          IF rd.status # "ok" THEN rd
-         ELSE IF rd.res.t # "arr" THEN R3(st, Missing, "open")     \* other iterables: C07's
-         ELSE LET lp == LoopFrom(sem, rd.st, ElemsOf(sem, rd.st, rd.res), 1, op.f)
-              IN R3(SetEnv(lp.st, "e", Unset), Missing, lp.status)
+         ELSE IF rd.res.t \notin {"arr", "obj"} THEN R3(st, Missing, "open")     \* other iterables: C07's
+         ELSE IF rd.res.t = "obj" /\ ~KeysKnown(rd.st.heap[rd.res.id].m) THEN R3(st, Missing, "open")
+         ELSE LET lp == LoopFrom(sem, rd.st, LoopElems(sem, rd.st, rd.res, op.kind = "loop2"), 1, op.f)
+              IN R3(SetEnv(SetEnv(lp.st, "e", Unset), "g", Unset), Missing, lp.status)
+    [] op.kind \in MethKinds ->
+         \* the receiver must be an array (a method of anything else: C15's / C16's)
+         LET rd == RdQ(sem, st, op.p) IN
+         IF rd.status # "ok" THEN rd
+         ELSE IF rd.res.t # "arr" THEN R3(st, Missing, "open")
+         ELSE IF sem = "I" THEN
+              LET r == CASE op.kind = "pop" -> ListPop(rd.st.heap, rd.res.id)
+                         [] op.kind = "popfirst" -> ListPopFirst(rd.st.heap, rd.res.id)
+                         [] OTHER -> ListPush(rd.st.heap, rd.res.id, Num(6))
+              IN R3([rd.st EXCEPT !.heap = r.h], r.res, "ok")
+         ELSE LET r == GMethod(rd.st, op.p, rd.res, op.kind, Num(6)) IN R3(r.st, r.res, r.status)
 
 \* the paths an operation only reads
-ReadPaths(op) == CASE op.kind = "set" -> IF op.r.r = "path" THEN {op.r.p} ELSE {}
-                   [] op.kind \in {"read", "call", "loop"} -> {op.p}
+ReadPaths(op) == CASE op.kind = "set" -> IF op.r.r \in {"path", "pluck"} THEN {op.r.p} ELSE {}
+                   [] op.kind \in {"read", "call", "loop", "loop2"} -> {op.p}
                    [] OTHER -> {}
 SkipOf(st, op) == {p.base : p \in {q \in ReadPaths(op) : ThroughUnset(st, q)}}
 
